@@ -341,6 +341,7 @@ func c06R1(p *Prog, r *Report) {
 	}
 	r.Count("addr_accessor_calls", nAcc)
 	r.Count("addr_accessor_calls_locally_guarded", nLocal)
+	c06ParserContract(p, r, rule)
 	// 3. port sets: Contains / Add with a non-zero port
 	nPS := 0
 	for _, pkg := range p.All {
@@ -1211,4 +1212,142 @@ func c06ValidByParse(fc *FuncCtx, cs CallSite) bool {
 		}
 	}
 	return false
+}
+
+// c06ParserContract decides the contract the discharges above rely on: a function of the
+// c06AddrParsers table returns, on every return that can carry a nil error, a valid address —
+// the result of an address constructor that sets a non-zero family (AddrFromIPPort,
+// AddrFromIPAndPort), a conn.Addr literal with a non-zero constant family, or the (address,
+// error) pair of another parser of the table passed on unchanged. The constructors themselves
+// are checked to set a non-zero constant family on every path.
+func c06ParserContract(p *Prog, r *Report, rule string) {
+	nonZeroFamily := func(info *types.Info, e ast.Expr) bool {
+		cl, ok := ast.Unparen(e).(*ast.CompositeLit)
+		if !ok || namedTypeName(info.TypeOf(cl)) != "Addr" {
+			return false
+		}
+		for _, el := range cl.Elts {
+			if kv, ok := el.(*ast.KeyValueExpr); ok {
+				if f, _ := info.Uses[keyIdent(kv.Key)].(*types.Var); f != nil && f.IsField() && isIntegerType(f.Type()) && !isIntegerType16(f.Type()) {
+					if k, isC := constInt(info, kv.Value); isC && k != 0 {
+						return true
+					}
+				}
+			}
+		}
+		return false
+	}
+	constructors := map[string]bool{"AddrFromIPPort": true, "AddrFromIPAndPort": true}
+	n := 0
+	for _, pkg := range p.All {
+		if pkg.Syntax == nil {
+			continue
+		}
+		rel := relPkg(pkg.PkgPath)
+		if rel != "conn" && rel != "socks5" && rel != "httpproxy" {
+			continue
+		}
+		p.AllFuncs(pkg, func(fc *FuncCtx) {
+			if fc.Obj == nil {
+				return
+			}
+			info := fc.Info()
+			name := fc.Obj.Name()
+			if rel == "conn" && constructors[name] {
+				// every return yields a value whose family was set to a non-zero constant
+				ok := true
+				res := fc.ResultObj(0)
+				for _, ret := range fc.Returns() {
+					rs := fc.G.V[ret].Node.(*ast.ReturnStmt)
+					good := false
+					if len(rs.Results) == 1 && nonZeroFamily(info, rs.Results[0]) {
+						good = true
+					}
+					if len(rs.Results) == 0 && res != nil {
+						for _, v := range fc.G.V {
+							as, isAs := v.Node.(*ast.AssignStmt)
+							if !isAs || len(as.Lhs) != 1 || len(as.Rhs) != 1 {
+								continue
+							}
+							root, path, okp := pathOf(info, as.Lhs[0])
+							if okp && root == res && path != "" && !strings.Contains(path[1:], ".") {
+								if k, isC := constInt(info, as.Rhs[0]); isC && k != 0 && fc.G.Dominates([]int{v.ID}, ret) {
+									// no later write to the result before the return
+									good = true
+								}
+							}
+						}
+					}
+					if !good {
+						ok = false
+					}
+				}
+				n++
+				r.Check(ok && len(fc.Returns()) > 0, rule, "conn."+name+":sets-non-zero-family", p.posStr(fc.Body.Pos()), "every return yields an address whose family is a non-zero constant", "the constructor can return an address whose family is unset: Host/ResolveIP on it panic although callers treat it as valid")
+				return
+			}
+			if !c06AddrParsers[name] {
+				return
+			}
+			sig := fc.Obj.Type().(*types.Signature)
+			if sig.Results().Len() < 2 || namedTypeName(sig.Results().At(0).Type()) != "Addr" {
+				return
+			}
+			for i, ret := range fc.Returns() {
+				rs := fc.G.V[ret].Node.(*ast.ReturnStmt)
+				n++
+				construct := fmt.Sprintf("%s:return#%d-valid-or-error", fc.Name, i)
+				good, why := false, ""
+				switch {
+				case len(rs.Results) == 1:
+					// return parser(...)
+					if c, ok := ast.Unparen(rs.Results[0]).(*ast.CallExpr); ok {
+						if fn := Callee(info, c); fn != nil && c06AddrParsers[fn.Name()] {
+							good, why = true, "passes on "+fn.Name()+"'s (address, error)"
+						}
+					}
+				case len(rs.Results) >= 2:
+					if fc.ErrAtReturn(ret) == ErrNonNil {
+						good, why = true, "error return"
+						break
+					}
+					a := ast.Unparen(rs.Results[0])
+					if c, ok := a.(*ast.CallExpr); ok {
+						if fn := Callee(info, c); fn != nil && constructors[fn.Name()] && fn.Pkg() != nil && fn.Pkg().Path() == mp("conn") {
+							good, why = true, "built by "+fn.Name()
+						}
+					}
+					if nonZeroFamily(info, a) {
+						good, why = true, "literal with a non-zero family"
+					}
+					// addr, …, err of one parser call passed on
+					if ao, eo := objOf(info, a), objOf(info, rs.Results[len(rs.Results)-1]); ao != nil && eo != nil {
+						for _, cs := range fc.AllCalls() {
+							if cs.Fn != nil && c06AddrParsers[cs.Fn.Name()] && cs.ResultVar(0) == ao && cs.ResultVar(-1) == eo && fc.SoleDef(ret, ao, cs.V) && fc.SoleDef(ret, eo, cs.V) {
+								good, why = true, "passes on "+cs.Fn.Name()+"'s (address, error)"
+							}
+						}
+					}
+				}
+				r.Check(good, rule, construct, p.posStr(rs.Pos()), why, "a return that may carry a nil error yields an address not known to be valid ("+exprStr(rs)+"): callers use Host/Domain/ResolveIP on a successfully parsed address without a further test")
+			}
+		})
+	}
+	r.Count("parser_contract_returns", n)
+}
+
+func keyIdent(e ast.Expr) *ast.Ident {
+	id, _ := e.(*ast.Ident)
+	return id
+}
+
+func isIntegerType(t types.Type) bool {
+	b, ok := t.Underlying().(*types.Basic)
+	return ok && b.Info()&types.IsInteger != 0
+}
+
+// isIntegerType16: the port field (uint16) is not the family.
+func isIntegerType16(t types.Type) bool {
+	b, ok := t.Underlying().(*types.Basic)
+	return ok && b.Kind() == types.Uint16
 }
